@@ -87,6 +87,8 @@ func jailMain() int {
 		res, err = jailReceive(req.Arg)
 	case "copy":
 		res, err = jailCopy(req.Arg)
+	case "sync":
+		res, err = jailSync(req.Arg)
 	default:
 		err = fmt.Errorf("unknown op %q", req.Op)
 	}
